@@ -107,7 +107,7 @@ def cases(chk):
     for i in range(chk.scale(40, 800)):
         first = r.choice([0, 1])
         yield "phases", {"phases": [_phase((first + j) % 2) for j in range(r.randint(2, 6))]}
-    for n in sorted(set([0, 1, 2, 255, 256, 65535, 65536, (1 << 24) - 1, 1 << 24, (1 << 24) + 1]
+    for n in sorted(set([0, 1, 2, 255, 256, 65535, 65536, (1 << 24) - 1, 1 << 24, (1 << 24) + 1] + [(1 << k) + d for k in (12, 20, 23) for d in (-1, 0, 1, 70000)]
                         + [v + d for v in chk.lits for d in (-1, 0, 1) if v + d >= 0])):
         yield "send", {"len": n, "enabled": 1}
     yield "send", {"len": 5, "enabled": 0}
